@@ -18,7 +18,8 @@ CONSTANTS Ops,       \* set of operation names enumerated by this run
           Shard, NShards,   \* this run prints the cases with hash = Shard (mod NShards)
           AllRS,     \* TRUE: every receiver state for every operand tuple; FALSE: one, chosen by hash
           Wide,      \* TRUE: several view offsets / bandwidths per kind
-          Mism       \* TRUE: enumerate calls with mismatched operand shapes (a shape panic is demanded)
+          Mism,      \* TRUE: enumerate calls with mismatched operand shapes (a shape panic is demanded)
+          Refill     \* TRUE: the stage "receiver (re)filled by a special-case path" (RefillCasesOf below)
 
 N1 == 1 .. MaxN
 
@@ -87,7 +88,7 @@ IsSym(A) == Rows(A) = Cols(A) /\ A = Transpose(A)
 \* receiver families
 DenseOps == {"Add", "Sub", "MulElem", "Mul", "Scale", "Apply", "Copy", "CloneFrom", "Stack", "Augment",
              "Kronecker", "Pow", "RankOne", "Outer", "Product", "Product1", "Product2", "Product4",
-             "DivElem", "Inverse", "Solve", "SolveTo"}
+             "DivElem", "Inverse", "Solve", "SolveTo", "ExpZero"}
 VecOps   == {"MulVec", "AddVec", "SubVec", "MulElemVec", "AddScaledVec", "ScaleVec", "CopyVec", "CloneFromVec",
              "DivElemVec", "MulVecTo", "SolveVec", "SolveVecTo"}
 SymOps   == {"AddSym", "CopySym", "ScaleSym", "SymRankOne", "SymRankK", "SymOuterK", "RankTwo"}
@@ -138,6 +139,8 @@ Demand(op, X, R, n1, n2) ==
       [] op = "Augment" -> IF Rows(A) = Rows(B) /\ Fits(R, Rows(A), Cols(A) + Cols(B)) THEN Ok(MAugment(A, B)) ELSE Panic
       [] op = "Kronecker" -> IF Fits(R, Rows(A) * Rows(B), Cols(A) * Cols(B)) THEN Ok(MKron(A, B)) ELSE Panic
       [] op = "Pow" -> IF Rows(A) = Cols(A) /\ Fits(R, Rows(A), Cols(A)) THEN Ok(MPow(A, n1)) ELSE Panic
+      \* Dense.Exp of the ZERO matrix (every other exponential is inexact and not covered): the identity, exactly
+      [] op = "ExpZero" -> IF Rows(A) = Cols(A) /\ Fits(R, Rows(A), Cols(A)) THEN Ok(Ident(Rows(A))) ELSE Panic
       [] op = "RankOne" ->
             IF Rows(B) = Rows(A) /\ Rows(C) = Cols(A) /\ Fits(R, Rows(A), Cols(A)) THEN Ok(MRankOne(A, n1, B, C)) ELSE Panic
       [] op = "Outer" -> IF Fits(R, Rows(A), Rows(B)) THEN Ok(MOuter(n1, A, B)) ELSE Panic
@@ -241,11 +244,19 @@ HS(ha) == ha[1][2] * 3 + (IF Len(ha) >= 2 THEN ha[2][2] * 5 ELSE 0) + (IF Len(ha
 Strip(ha) == [k \in 1 .. Len(ha) |-> ha[k][1]]
 
 (********************************** receivers **********************************)
-RStates == <<"zero", "sized", "view">>
+\* "reset": a receiver that held a larger junk-filled matrix and was Reset(): it is empty (adopts the result's
+\* shape) but its storage is reused and holds the old content; only enumerated by the stage "refill"
+RStates == <<"zero", "sized", "view", "reset">>
 NoRep == Rep("None", 0, 0, 0, 0, "N")
 \* receiver of family fam in state st with shape r x c (upper: triangle kind of a Tri receiver)
 RecvRep(fam, st, r, c, upper) ==
     IF st = "zero" THEN NoRep
+    ELSE IF st = "reset"
+    THEN CASE fam = "Dense" -> Rep("Dense", r + 1, c + 1, 0, 0, "N")
+           [] fam = "Vec" -> Rep("Vec", r + 1, 1, 0, 0, "N")
+           [] fam = "Sym" -> Rep("Sym", r + 1, r + 1, 0, 0, "N")
+           [] fam = "Tri" -> Rep(IF upper THEN "TriL" ELSE "TriU", r + 1, r + 1, 0, 0, "N")   \* the other kind: it is forgotten
+           [] fam = "Diag" -> Rep("Diag", r + 1, r + 1, 0, 0, "N")
     ELSE CASE fam = "Dense" -> IF st = "sized" THEN Rep("Dense", r, c, 0, 0, "N") ELSE Rep("DenseView", r, c, 1, 2, "N")
            [] fam = "Vec" -> IF st = "sized" THEN Rep("Vec", r, 1, 0, 0, "N") ELSE Rep("VecInc", r, 1, 1, 3, "N")
            [] fam = "Sym" -> IF st = "sized" THEN Rep("Sym", r, r, 0, 0, "N") ELSE Rep("SymView", r, r, 1, 0, "N")
@@ -266,7 +277,9 @@ Desc(op, args, n1, n2, rs, rr, rc, up) ==
     [op |-> op, args |-> args, n1 |-> n1, n2 |-> n2, rs |-> rs, rr |-> rr, rc |-> rc, up |-> up]
 
 InShard(args, extra) == ((HS(args) + extra) % NShards) = Shard
-RSFor(args, extra) == IF AllRS THEN {1, 2, 3} ELSE {1 + ((HS(args) \div NShards + extra + Seed) % 3)}
+\* (H2 of the first operand takes part: HS of a one-operand tuple is a multiple of 3, so inside one shard
+\* HS \div NShards alone is constant mod 3 and the receiver state would be a function of n1 and the seed only)
+RSFor(args, extra) == IF AllRS THEN (IF Refill THEN {1, 2, 3, 4} ELSE {1, 2, 3}) ELSE {1 + ((HS(args) \div NShards + H2(args[1][1]) + extra + Seed) % 3)}
 
 \* receiver shape: the result shape, or (for sized / view receivers) deliberately wrong shapes
 \* wrong = 1: one more row
@@ -274,7 +287,7 @@ RSFor(args, extra) == IF AllRS THEN {1, 2, 3} ELSE {1 + ((HS(args) \div NShards 
 \* Copy-like operations accept any receiver shape.
 AnyShapeOps == {"Copy", "CopyVec", "CopySym", "CopyTri", "CloneFrom", "CloneFromVec"}
 N2For(op, ha, s) ==
-    IF s = 1 \/ op \in AnyShapeOps \/ Family(op) = "Func" \/ (HS(ha) \div 7) % 4 # 0 THEN {0}
+    IF s \in {1, 4} \/ op \in AnyShapeOps \/ Family(op) = "Func" \/ (HS(ha) \div 7) % 4 # 0 THEN {0}
     ELSE IF Family(op) = "Dense" THEN {0, 1 + (HS(ha) % 2)} ELSE {0, 1}
 With(op, argsSet, n1s, r(_), c(_), up(_)) ==
     UNION {UNION {UNION {{LET a == Strip(ha) IN
@@ -467,7 +480,48 @@ NormalCasesOf(op) ==
             LET r(a) == 0  c(a) == 0  u(a) == TRUE IN
             With(op, UNION {{<<x>> : x \in Hd(MatReps(i, j))} : i \in N1, j \in N1}, 0 .. MaxN - 1, r, c, u)
 
-Cases == UNION {IF Mism THEN MismCasesOf(op) ELSE NormalCasesOf(op) : op \in Ops}
+(* Stage "refill".  Several methods fill the receiver through a path of their own instead of the general
+   kernel: Pow(a, 0) writes the identity, Pow(a, 1) copies, Pow(a, 2) is one Mul, Scale(0, a) and Scale(1, a)
+   are degenerate scalings, the Copy family writes a corner of the receiver, MulTri of two diagonal factors
+   zeroes the receiver and sets its diagonal, DiagFrom reads one diagonal.  Such a path is where a receiver
+   that is a VIEW (stride > columns, junk between its rows) or that holds old content is most easily
+   mistreated, and the sampled grid above meets each (parameter, receiver state) pair only for some seeds.
+   This stage is not sampled: every operation of the list x every parameter that selects a special path
+   x EVERY receiver state (it is run with AllRS) x a reduced set of operand representations x shapes. *)
+LiteKinds == {"Dense", "DenseView", "Basic", "Sym", "TriU", "TriL", "TriUView", "Band", "Diag", "DiagOfDense", "Tridiag",
+              "Vec", "VecInc", "RowOfDense", "BasicVec", "TriBandU"}
+LiteOf(S) == {x \in S : x[1].kind \in LiteKinds /\ x[1].tw \in {"N", "T", "TTri"}}
+RefillCasesOf(op) ==
+    LET r(a) == D1(a[1])  cc(a) == D2(a[1])  u(a) == TRUE  one(a) == 1  ut(a) == IsUpper(a[1])
+        Sq == UNION {{<<x>> : x \in LiteOf(Hd(MatReps(i, i)))} : i \in N1}
+        AnyM == UNION {{<<x>> : x \in LiteOf(Hd(MatReps(i, j)))} : i \in N1, j \in N1}
+        Vecs == UNION {{<<x>> : x \in LiteOf(Hd(VecReps(i)))} : i \in N1}
+        Syms == UNION {{<<x>> : x \in LiteOf(Hd(SymReps(i)))} : i \in N1}
+        Tris == UNION {{<<x>> : x \in LiteOf(Hd(TriReps(i)))} : i \in N1}
+        rcopy(a) == Max2(1, D1(a[1]) - 1 + (H2(a[1]) % 3))
+        ccopy(a) == Max2(1, D2(a[1]) - 1 + ((H2(a[1]) \div 3) % 3))
+        ucopy(a) == ((H2(a[1]) \div 9) % 2) = 0
+        rdiag(a) == Min2(D1(a[1]), D2(a[1]))
+    IN
+    CASE op = "Pow" -> With(op, Sq, 0 .. 3, r, cc, u)
+      [] op = "ExpZero" -> With(op, Sq, {0}, r, cc, u)
+      [] op = "Scale" -> With(op, AnyM, {0, 1, 0 - 1}, r, cc, u)
+      [] op \in {"Apply", "CloneFrom"} -> With(op, AnyM, {0}, r, cc, u)
+      [] op = "Copy" -> With(op, AnyM, {0}, rcopy, ccopy, u)
+      [] op = "ScaleVec" -> With(op, Vecs, {0, 1, 0 - 1}, r, one, u)
+      [] op = "CloneFromVec" -> With(op, Vecs, {0}, r, one, u)
+      [] op = "CopyVec" -> With(op, Vecs, {0}, rcopy, one, u)
+      [] op = "ScaleSym" -> With(op, Syms, {0, 1, 0 - 1}, r, r, u)
+      [] op = "CopySym" -> With(op, Syms, {0}, rcopy, rcopy, u)
+      [] op = "ScaleTri" -> With(op, Tris, {0, 1, 0 - 1}, r, r, ut)
+      [] op = "CopyTri" -> With(op, AnyM, {0}, rcopy, rcopy, ucopy)
+      [] op = "MulTri" ->
+            With(op, UNION {{xy \in LiteOf(Hd(TriReps(i))) \X LiteOf(Hd(TriReps(i))) : IsUpper(xy[1][1]) = IsUpper(xy[2][1])} : i \in N1},
+                 {0}, r, r, ut)
+      [] op = "DiagFrom" -> With(op, AnyM, {0}, rdiag, rdiag, u)
+      [] OTHER -> {}
+
+Cases == UNION {IF Refill THEN RefillCasesOf(op) ELSE IF Mism THEN MismCasesOf(op) ELSE NormalCasesOf(op) : op \in Ops}
 
 (******************************* the printed case *******************************)
 \* data salt of operand position k.  Equal with n1 = 1 compares two operands holding the SAME formula
@@ -477,6 +531,7 @@ UnitOps == {"Inverse", "InverseTri", "Det", "Solve", "SolveVec", "SolveTo", "Sol
 UnitMode(x) == IF x.kind \in UpperKinds THEN "unitU" ELSE IF x.kind \in LowerKinds THEN "unitL"
                ELSE IF H(x) % 2 = 0 THEN "unitU" ELSE "unitL"
 Mode(d, k) == CASE d.op \in {"DivElem", "DivElemVec"} -> IF k = 1 THEN "x4" ELSE "pow2"
+                [] d.op = "ExpZero" -> "zero"
                 [] d.op \in UnitOps /\ k = 1 -> UnitMode(d.args[1])
                 [] OTHER -> "plain"
 ArgStore(d, k) == StoreOfM(d.args[k], SaltOf(d, k), Mode(d, k))
@@ -508,7 +563,7 @@ Printed(d) ==
         X  == [k \in 1 .. Len(d.args) |-> Abs(d.args[k], st[k])]
         rr == RecvOf(d)
         rs == IF rr.kind = "None" THEN <<>> ELSE StoreOf(rr, Seed * 4 + 9)
-        R  == IF rr.kind = "None" THEN <<>> ELSE Abs(rr, rs)
+        R  == IF rr.kind = "None" \/ d.rs = "reset" THEN <<>> ELSE Abs(rr, rs)
         e0 == Demand(d.op, X, R, d.n1, d.n2)
         e  == IF d.op = "CopyTri" /\ ~e0.panic /\ e0.rows # <<>> THEN [e0 EXCEPT !.rows = TriPart(e0.rows, d.up)] ELSE e0
     IN [op |-> d.op, n1 |-> d.n1, n2 |-> d.n2, rs |-> d.rs, up |-> d.up,
